@@ -834,7 +834,9 @@ def _execute(ctx):
                 if rawc is not None:
                     exact = max(rawc, F(c.min_interest))
                     tr = (exact // u) * u
-                    if abs(F(got) - tr) > u:
+                    # one unit for the truncation, plus the noise of the binary floating point division basana uses for
+                    # elapsed / period (relative 1e-16 or so: more than a unit only for amounts with 16+ significant digits)
+                    if abs(F(got) - tr) > u + exact / 10 ** 15:
                         V("C11", "interest-amount", f"outstanding interest {got} vs exact {float(exact)} truncated {float(tr)} "
                                                     f"(principal {l.borrowed_amount} {l.borrowed_symbol}, {c.interest_percentage}% per {per}s, "
                                                     f"elapsed {(now - meta['created']).total_seconds()}s) at {where}")
